@@ -846,6 +846,20 @@ int harness_main(int argc, char **argv) {
     printf("%s\n", r.to_json().str(1).c_str());
     return r.violation ? 1 : 0;
   }
+  if (cmd == "runseq" && argc >= 4) {
+    // several seeds in ONE process (to look for state leaking from one run into the next)
+    for (int i = 3; i < argc; i++) {
+      if (argv[i][0] == '-') break;
+      J plan; std::string a = argv[i], txt;
+      if (a.size() > 5 && a.substr(a.size() - 5) == ".json") { if (!read_file(a, txt) || !J::parse(txt, plan)) return 2; }
+      else plan = P->gen(strtoull(argv[i], nullptr, 10), thorough);
+      RunResult r = P->run(plan);
+      printf("%s %llu %s\n", argv[i], (unsigned long long)(r.fingerprint ^ (r.violation ? fnv_str(r.oracle + r.signature) : 0)), r.violation ? (r.oracle + "/" + r.signature).c_str() : "-");
+      if (getenv("CVSIM_VERBOSE")) printf("%s\n", r.to_json().str(1).c_str());
+      fflush(stdout);
+    }
+    return 0;
+  }
   if (cmd == "runfile" && argc >= 4) {
     std::string txt; J plan;
     if (!read_file(argv[3], txt) || !J::parse(txt, plan)) return 2;
